@@ -211,8 +211,17 @@ pub fn feed_and_judge(slots: usize, storage: usize, seq: &[Vec<u8>], st: &mut St
                 return Ok((delivered, ends_with_open_train));
             }
         };
-        if r.is_err() {
-            model.receiver_rejected_last();
+        if let Err((e, _)) = &r {
+            // A rejected packet is dropped as a whole, so a reassembly it would have displaced may go
+            // on — but only for rejections a receiver can legitimately answer to a first fragment
+            // (label, length, extension, storage reasons).  A first fragment refused with an
+            // internal-memory error (MemoryCorrupted / UndefinedId) is not such a case: the reassembly
+            // in progress must not survive it.
+            use dvb_gse_rust::gse_decap::{DecapError as E, DecapMemoryError as M};
+            let legitimate = !matches!(e, E::ErrorMemory(M::MemoryCorrupted) | E::ErrorMemory(M::UndefinedId));
+            if legitimate {
+                model.receiver_rejected_last();
+            }
         }
         if let Seen::End { trains, .. } = &seen {
             if !trains.is_empty() {
